@@ -92,7 +92,9 @@ class ProcessWorker(Worker):
         else:
             try:
                 self._ctrl_comms.parent_end.put('terminate')
-                self._ctrl_comms.parent_end.get()
+                # the child's control thread cannot answer if the child is stopped or stuck inside C code
+                if timeout is None or self._ctrl_comms.parent_end.poll(timeout):
+                    self._ctrl_comms.parent_end.get()
             except (OSError, queue.Empty):
                 pass
 
